@@ -150,6 +150,12 @@ class Safe:
         self.env: dict[str, str | None] = {}
         self.triaged: set[tuple[str, str]] = set()
         self._rd: dict[int, object] = {}
+        # classes whose text is judged where they are constructed (their str() is then safe)
+        self.checked_text_classes: set[str] = set()
+        # look into the __str__ of every subclass (class hierarchy) instead of giving up when one overrides it
+        self.follow_overrides = False
+        # subclasses that the values analysed are never instances of (each with a reason at the rule that sets it)
+        self.never_instances: set[str] = set()
 
     def _reaching(self, fi, name_node: ast.Name):  # noqa: ANN001, ANN202
         from .labels import ReachDefs
@@ -267,23 +273,41 @@ class Safe:
                 classes = [c for c in m.type_classes(fi.module, a0) if c in m.classes]
                 if len(classes) == 1 and depth < 6:
                     cn = classes[0]
-                    for meth in (('__repr__', '__str__') if e.func.id == 'repr' else ('__str__', '__repr__')):
-                        f = m.effective(cn, meth)
-                        if f is None:
-                            continue
-                        overridden = any(meth in m.classes[sc].methods for sc in m.all_subclasses(cn) if sc in m.classes)
-                        if overridden or f.qualname in seen:
-                            break
-                        sl2 = Slicer(m, f)
-                        for r in walk_no_nested(f.node):
-                            if isinstance(r, ast.Return) and r.value is not None:
-                                if isinstance(r.value, (ast.Name, ast.Attribute, ast.Subscript)):
-                                    # a cached / stored text: what it holds is not visible here
-                                    return 'str() of %s: %s.%s returns stored text %s' % (norm(a0)[:30], cn.rsplit('.', 1)[-1], meth, norm(r.value)[:30])
-                                w = self.why_tainted(r.value, f, sl2, depth + 2, seen | {f.qualname})
-                                if w:
-                                    return 'via %s.%s: %s' % (cn.rsplit('.', 1)[-1], meth, w)
+                    if cn in self.checked_text_classes:
                         return None
+                    for meth in (('__repr__', '__str__') if e.func.id == 'repr' else ('__str__', '__repr__')):
+                        f0 = m.effective(cn, meth)
+                        if f0 is None and not self.follow_overrides:
+                            continue
+                        # the static class and every subclass that renders itself differently (class hierarchy)
+                        impls = {f0.qualname: f0} if f0 is not None else {}
+                        if self.follow_overrides:
+                            for sc in m.all_subclasses(cn):
+                                if sc in m.classes and meth in m.classes[sc].methods and sc not in self.never_instances:
+                                    impls[m.classes[sc].methods[meth].qualname] = m.classes[sc].methods[meth]
+                        else:
+                            overridden = any(meth in m.classes[sc].methods for sc in m.all_subclasses(cn) if sc in m.classes)
+                            if overridden:
+                                break
+                        if (f0 is not None and f0.qualname in seen) or len(impls) > 60:
+                            break
+                        if not impls:
+                            continue
+                        for f in impls.values():
+                            if f.qualname in seen:
+                                continue
+                            sl2 = Slicer(m, f)
+                            for r in walk_no_nested(f.node):
+                                if isinstance(r, ast.Return) and r.value is not None:
+                                    if isinstance(r.value, (ast.Name, ast.Attribute, ast.Subscript)) and not (isinstance(r.value, ast.Name) and r.value.id in sl2.defs):
+                                        # a cached / stored text: what it holds is not visible here
+                                        return 'str() of %s: %s returns stored text %s' % (norm(a0)[:30], f.qualname.rsplit('.', 2)[-2] + '.' + meth, norm(r.value)[:30])
+                                    w = self.why_tainted(r.value, f, sl2, depth + 2, seen | {f.qualname})
+                                    if w:
+                                        return 'via %s: %s' % (f.qualname.rsplit('.', 2)[-2] + '.' + meth, w)
+                        return None
+                    if self.follow_overrides:
+                        return None  # neither the class nor a subclass defines a rendering: object.__repr__, ASCII
                 return 'str() of %s (type %s)' % (norm(a0)[:40], ta)
             if isinstance(e.func, ast.Name) and e.func.id in ('len', 'int', 'hex', 'bin', 'oct', 'ord', 'bool', 'float', 'sum', 'min', 'max', 'abs', 'round'):
                 return None
@@ -292,7 +316,7 @@ class Safe:
                 tm = self.taint.tainted_member(m.type_classes(fi.module, e.func.value), e.func.attr)
                 if tm:
                     return 'tainted method %s (%s)' % (norm(e.func)[:40], tm)
-                if e.func.attr in ('extensive', '__str__', '__repr__', 'feedback'):
+                if e.func.attr in ('extensive', '__str__', '__repr__', 'feedback') and not (self.follow_overrides and callee):
                     return 'text rendering %s of a non-closed object' % norm(e.func)[:40]
             if t == 'builtins.str' or t in ('?', 'Any'):
                 # a str-returning helper: look inside when it is a function of the model
